@@ -19,11 +19,13 @@ import (
 	"crypto/rsa"
 	"crypto/sha256"
 	"fmt"
+	"io"
 	"os"
 	"sort"
 	"strings"
 	"sync"
 
+	"github.com/google/gce-tcb-verifier/cmd/output"
 	"github.com/google/gce-tcb-verifier/keys"
 	"github.com/google/gce-tcb-verifier/keys/gcpkms"
 	"github.com/google/gce-tcb-verifier/rotate"
@@ -57,6 +59,8 @@ type k10Inst struct {
 	f   *faultCtl
 	cl  *k10Client // client of the current operation
 	rng *Rng
+	// keepGoing: the next operations run with --keep_going (c10_kms_keepgoing.go)
+	keepGoing bool
 }
 
 func newK10Inst(ca string, snap *k10Snap, dir string, rng *Rng) *k10Inst {
@@ -76,7 +80,12 @@ func (k *k10Inst) cleanClient() *k10Client {
 func (k *k10Inst) ctx(overwrite bool, script map[int]int, env k10Env) context.Context {
 	k.f = &faultCtl{script: script}
 	k.in.f = k.f
-	base, cancel := context.WithCancel(quietCtx(overwrite))
+	outCtx := quietCtx(overwrite)
+	if k.keepGoing {
+		outCtx = output.NewContext(context.Background(), &output.Options{Quiet: true, Overwrite: overwrite, KeepGoing: true,
+			Out: io.Discard, Err: io.Discard})
+	}
+	base, cancel := context.WithCancel(outCtx)
 	k.cl = &k10Client{svc: k.svc, f: k.f, env: env, cancel: cancel, rng: k.rng}
 	mgr := k.cl.manager()
 	c := &keys.Context{
@@ -582,6 +591,7 @@ func runC10Kms(c *Ctx) {
 	// 7. external changes of key versions during / between runs (direct oracle only)
 	if maxHist >= 1 {
 		runC10KmsScenarios(c, snaps)
+		runC10KmsKeepGoing(c, snaps)
 	}
 	_ = sort.Strings
 }
